@@ -106,9 +106,23 @@ def main():
         k = a.index("--seed"); seed = int(a[k + 1]); a = a[:k] + a[k + 2:]
     if "--par" in a:
         k = a.index("--par"); par = int(a[k + 1]); a = a[:k] + a[k + 2:]
-    out, n, files, checks = a[0], int(a[1]), a[2].split(","), a[3].split(",")
+    if a[0] == "--rerun":
+        # tools/mutsweep.py --rerun <old.json> <out.json> <checks>: the survivors of an earlier sweep again
+        old = json.load(open(a[1]))
+        out, checks = a[2], a[3].split(",")
+        jobs = []
+        for r in old:
+            if r["status"] != "survived":
+                continue
+            lines = open(os.path.join(SRC, "factorysimpy", r["file"])).read().split("\n")
+            o = lines[r["line"] - 1]
+            ind = re.match(r"^\s*", o).group(0)
+            jobs.append((r["file"], r["line"] - 1, o, ind + r["new"], r["what"], checks))
+        files = []
+    else:
+        out, n, files, checks = a[0], int(a[1]), a[2].split(","), a[3].split(",")
+        jobs = []
     rng = random.Random(seed)
-    jobs = []
     for rel in files:
         lines, cands = candidates(os.path.join(SRC, "factorysimpy", rel))
         rng.shuffle(cands)
